@@ -250,6 +250,9 @@ impl Prop for C01 {
             Ok(s) => s,
             Err(_) => return RunOut::skip("parser-rejected"),
         };
+        // schedule dimension "late loop": in 3 of 8 cases an iteration of the processing loop covers
+        // 2, 5 or 50 ms at once (tick_ms(n)); derived from the case seed so that a replay repeats it
+        st.batch = case.param_u64("batch").unwrap_or([1u64, 1, 1, 1, 1, 2, 5, 50][(case.seed % 8) as usize]);
         // precondition of the property: the configuration does not deliberately latch output
         if !config_is_non_latching(&case.cfg) {
             return RunOut::skip("config-latches-a-virtual-key");
